@@ -65,22 +65,23 @@ Record wstate := mkW {
   next_seq : Z;                   (* Sender.sequence *)
   chan : list entry;              (* Sender.entryChan, head = oldest *)
   dropped : list Z;               (* sequences reported as dropped (buffer full), in report order *)
-  sent : list entry               (* entries taken by distributionLoop and written to the reader, in order *)
+  sent : list entry;              (* entries taken by distributionLoop and written to the reader, in order *)
+  alog : list entry               (* ghost: (sequence, payload handed to Sender.Replicate) in assignment order *)
 }.
 
-Definition w_init : wstate := mkW 0 0 [] [] [].
+Definition w_init : wstate := mkW 0 0 [] [] [] [].
 
 (* select { case s.entryChan <- entry: default: totalEntriesDropped++, log sequence } *)
 Definition enqueue (cap : Z) (s : wstate) (seq : Z) (p : payload) : wstate :=
   if Z.of_nat (length (chan s)) <? cap
-  then mkW (wal_seq s) (next_seq s) (chan s ++ [mkEntry seq p]) (dropped s) (sent s)
-  else mkW (wal_seq s) (next_seq s) (chan s) (dropped s ++ [seq]) (sent s).
+  then mkW (wal_seq s) (next_seq s) (chan s ++ [mkEntry seq p]) (dropped s) (sent s) (alog s)
+  else mkW (wal_seq s) (next_seq s) (chan s) (dropped s ++ [seq]) (sent s) (alog s).
 
 (* entry.Sequence = s.sequence.Add(1); in the corrected protocol the channel send happens in
    the same critical section *)
 Definition assign (atomic : bool) (cap : Z) (s : wstate) (p : payload) : wstate * wpc :=
   let seq := next_seq s + 1 in
-  let s1 := mkW (wal_seq s) seq (chan s) (dropped s) (sent s) in
+  let s1 := mkW (wal_seq s) seq (chan s) (dropped s) (sent s) (alog s ++ [mkEntry seq p]) in
   if atomic then (enqueue cap s1 seq p, WDone) else (s1, W2 seq p).
 
 Definition wstep (atomic : bool) (cap : Z) (s : wstate) (t : wpc) : option (wstate * wpc) :=
@@ -88,7 +89,7 @@ Definition wstep (atomic : bool) (cap : Z) (s : wstate) (t : wpc) : option (wsta
   | W0 w =>
       match w_kind w with
       | KDirect => Some (assign atomic cap s (w_data w))
-      | _ => Some (mkW (wal_seq s + 1) (next_seq s) (chan s) (dropped s) (sent s),
+      | _ => Some (mkW (wal_seq s + 1) (next_seq s) (chan s) (dropped s) (sent s) (alog s),
                    W1 (wal_seq s + 1) (rep_payload w))
       end
   | W1 _ p => Some (assign atomic cap s p)
@@ -100,7 +101,7 @@ Definition wstep (atomic : bool) (cap : Z) (s : wstate) (t : wpc) : option (wsta
 Definition dstep (s : wstate) : option wstate :=
   match chan s with
   | [] => None
-  | e :: r => Some (mkW (wal_seq s) (next_seq s) r (dropped s) (sent s ++ [e]))
+  | e :: r => Some (mkW (wal_seq s) (next_seq s) r (dropped s) (sent s ++ [e]) (alog s))
   end.
 
 (* is the next step of this thread the sequence assignment of Sender.Replicate? *)
@@ -404,6 +405,7 @@ Record ccase := mkCase {
   o_chan : list entry;            (* entries left in entryChan when the schedule ended *)
   o_dropped : list Z;             (* sequences reported dropped, in report order *)
   o_walseq : Z; o_nextseq : Z;
+  o_assigned : list Z;            (* per writer thread: the sequence Sender.Replicate gave to its entry *)
   (* receiver side: configuration, what the wire adversary delivers *)
   c_rcfg : rcfg; c_last0 : Z; c_aok : list bool;
   c_honest : bool;                (* the wire is exactly o_frames *)
@@ -419,6 +421,12 @@ Definition entries_of (fs : list frame) : list entry :=
                      | FEntry s p (TagMac _ _ _) => [mkEntry s p]
                      | _ => [] end) fs.
 
+(* what each writer appended, keyed by the sequence the implementation reported for it: the
+   payload handed to the WAL (enveloped for AppendRawWithMeta) - computed from the INPUTS of the
+   writers, not from anything the sender put on the wire *)
+Definition appended (c : ccase) : list entry :=
+  map (fun ws => mkEntry (snd ws) (rep_payload (fst ws))) (combine (c_progs c) (o_assigned c)).
+
 Definition all_done (ts : list wpc) : bool :=
   forallb (fun t => match t with WDone => true | _ => false end) ts.
 
@@ -431,7 +439,10 @@ Definition writer_agrees (c : ccase) : bool :=
       list_eqb frame_eqb (send_all (c_scfg c) (meta_fn (c_meta c)) ss_init (sent s)) (o_frames c) &&
       list_eqb entry_eqb (chan s) (o_chan c) &&
       list_eqb Z.eqb (dropped s) (o_dropped c) &&
-      (wal_seq s =? o_walseq c) && (next_seq s =? o_nextseq c)
+      (wal_seq s =? o_walseq c) && (next_seq s =? o_nextseq c) &&
+      (* same (sequence, payload) assignments, as sets *)
+      Nat.eqb (length (alog s)) (length (appended c)) &&
+      forallb (fun e => existsb (entry_eqb e) (appended c)) (alog s)
   end.
 
 Definition errors_of (r : rres) : Z :=
@@ -473,6 +484,15 @@ Definition case_unforgeable (c : ccase) : bool :=
                         negb (N.eqb k (rc_key (c_rcfg c))) || existsb (entry_eqb (mkEntry s p)) (genuine c)
                     | _ => true
                     end) (c_wire c).
+
+(* payload integrity, on the implementation's own output: every entry the sender wrote to the
+   wire or left in its channel, and every entry the receiver applied, carries exactly the payload
+   that was appended under that sequence (value semantics: a queued entry must not change) *)
+Definition case_oracle_payload (c : ccase) : bool :=
+  forallb (fun e => existsb (entry_eqb e) (appended c)) (entries_of (o_frames c) ++ o_chan c) &&
+  (if N.eqb (sc_key (c_scfg c)) (rc_key (c_rcfg c)) && case_unforgeable c
+   then forallb (fun e => existsb (entry_eqb e) (appended c)) (obs_applied (o_atts c) (o_last c))
+   else true).
 
 Definition all_true (l : list bool) : bool := forallb (fun b => b) l.
 
